@@ -108,9 +108,13 @@ def install() -> None:
     orig_stream = ExecutionOrchestrator.compute_stream
 
     def compute_stream(self: Any) -> Any:
-        for u, r in orig_stream(self):
-            REC.yields.append(u)
-            yield (u, r)
+        inner = orig_stream(self)
+        try:
+            for u, r in inner:
+                REC.yields.append(u)
+                yield (u, r)
+        finally:
+            inner.close()        # transparent wrapper: closing / abandoning the outer generator closes the real one at once
     ExecutionOrchestrator.compute_stream = compute_stream  # type: ignore[method-assign]
 
     orig_create = ExecutionPlan.create_execution_plan
